@@ -347,6 +347,8 @@ def run(ctx):
     double_escape_tests(ctx, tm)
     cdata_terminator(ctx, tm)
     cdata_nul(ctx, tm)
+    from . import wslint
+    wslint.run(ctx, "C02.9")
     from . import c14
     c14.trie_rules(ctx, "C02.8")
     emission(ctx, tm)
